@@ -553,7 +553,7 @@ impl MessageDecoder {
         walk_prefix(body, sts, cur),
         walk(body, 0) == (match walk(body, cur) { Some(r) => Some(sts + r), None => None::<Seq<int>> }),
         filter_flags(filter) == flags_at(types_at(body, sts), sts.len() as int),
-        ignore == !opt_not_ignore(self.ctx),
+//@?ignore         ignore == !opt_not_ignore(self.ctx),
         dec_upto(b, sts, sts.len() as int, self.ctx) == Some(builder.0.attributes@),
         builder.0.method.0 == rfc_method_of((be16(b) % 16384) as u16), spec_class_bits(builder.0.class) == rfc_class_of((be16(b) % 16384) as u16),
         builder.0.transaction_id is Some && builder.0.transaction_id->Some_0.0@ == b.subrange(8, 20),
